@@ -554,11 +554,15 @@ func (r *runState) main() {
 		ctx = deadlineCtx{ctx}
 	}
 
+	var tm *dag.TaskMap
+	if sc.UseTaskMap {
+		tm = dag.NewTaskMap()
+	}
 	tasks := make([]*dag.Task, n)
 	alts := make([]*dag.Task, n) // a second, distinct Task object per id (same ID, same behaviour)
 	for i := 0; i < n; i++ {
-		tasks[i] = dag.NewTask(fmt.Sprintf("t%02d", i), r.taskFn(i, 0, cancel))
-		alts[i] = dag.NewTask(fmt.Sprintf("t%02d", i), r.taskFn(i, 1, cancel))
+		tasks[i] = r.newTask(tm, r.id(i), r.taskFn(i, 0, cancel))
+		alts[i] = dag.NewTask(r.id(i), r.taskFn(i, 1, cancel))
 	}
 	pick := func(c Call) *dag.Task {
 		if c.Alt {
@@ -571,11 +575,20 @@ func (r *runState) main() {
 	for g := 0; g < ng; g++ {
 		gr := dag.NewGraph(fmt.Sprintf("g%d", g))
 		gr.TickerDuration = time.Duration(sc.TickNS)
-		if sc.Serial {
+		gr.UseColor = sc.UseColor
+		if sc.Serial && !sc.SerialLast {
 			gr.SetSerial()
+		}
+		if sc.MaxParFirst > 0 {
+			gr.SetMaxParallel(sc.MaxParFirst) // an earlier value, overwritten below
 		}
 		if sc.MaxPar > 0 {
 			gr.SetMaxParallel(sc.MaxPar)
+		} else if sc.MaxParFirst > 0 {
+			r.curMaxPar = sc.MaxParFirst
+		}
+		if sc.Serial && sc.SerialLast {
+			gr.SetSerial()
 		}
 		if sc.Buffer {
 			gr.SetOutputBuffer(&simWriter{r, g})
@@ -588,7 +601,7 @@ func (r *runState) main() {
 				switch c.Op {
 				case "add":
 					if c.Via == "graph" {
-						gr.AddTask(gr.Task(fmt.Sprintf("t%02d", c.T)))
+						gr.AddTask(gr.Task(r.id(c.T)))
 					} else {
 						gr.AddTask(pick(c))
 					}
@@ -598,22 +611,25 @@ func (r *runState) main() {
 						ds[j] = tasks[d]
 					}
 					if c.Via == "graph" {
-						gr.TaskDependsOn(gr.Task(fmt.Sprintf("t%02d", c.T)), ds...)
+						gr.TaskDependsOn(gr.Task(r.id(c.T)), ds...)
 					} else {
 						gr.TaskDependsOn(pick(c), ds...)
 					}
 				case "retries":
 					if c.Via == "graph" {
-						gr.TaskRetries(gr.Task(fmt.Sprintf("t%02d", c.T)), c.R)
+						gr.TaskRetries(gr.Task(r.id(c.T)), c.R)
 					} else {
 						gr.TaskRetries(pick(c), c.R)
 					}
 				case "lookup":
-					gr.Task(fmt.Sprintf("t%02d", c.T))
+					gr.Task(r.id(c.T))
 				case "addnil":
 					gr.AddTask(nil)
 				case "addnofn":
-					gr.AddTask(dag.NewTask(fmt.Sprintf("t%02d", c.T), nil))
+					gr.AddTask(dag.NewTask(r.id(c.T), nil))
+				case "addtmunknown":
+					// a Task fetched from a TaskMap that does not know the id: empty Task, no function
+					gr.AddTask(dag.NewTaskMap().Get("no-such-task"))
 				case "addnoid":
 					gr.AddTask(dag.NewTask("", func(context.Context, *getoptions.GetOpt, []string) error { return nil }))
 				case "dfs":
@@ -693,6 +709,14 @@ func (r *runState) main() {
 				if ph.MaxPar > 0 {
 					graphs[0].SetMaxParallel(ph.MaxPar)
 					r.curMaxPar = ph.MaxPar
+				}
+				if ph.TickNS != nil && !simrt.RealRuntime {
+					graphs[0].TickerDuration = time.Duration(*ph.TickNS)
+					// task durations are expressed in poll ticks: follow the new tick
+					r.unit = time.Duration(*ph.TickNS)
+					if r.unit <= 0 {
+						r.unit = 1
+					}
 				}
 				vs, err := graphs[0].DepthFirstSort()
 				simrt.Lock()
@@ -793,6 +817,26 @@ func (r *runState) onSettled(gname string) {
 
 func name2run(g int) string { return fmt.Sprintf("run:g%d", g) }
 
+// id is the task ID handed to the library for task i (messages of the harness always say tNN).
+func (r *runState) id(i int) string {
+	switch r.sc.IDScheme {
+	case 1: // every id is a prefix of the next ones
+		return "t" + strings.Repeat("x", i)
+	case 2: // unusual characters
+		return fmt.Sprintf("task %d/ü:\"%d\"", i, i)
+	}
+	return fmt.Sprintf("t%02d", i)
+}
+
+// newTask creates the primary Task object of an id: directly, or through a TaskMap.
+func (r *runState) newTask(tm *dag.TaskMap, id string, fn getoptions.CommandFn) *dag.Task {
+	if tm != nil {
+		tm.Add(id, fn)
+		return tm.Get(id)
+	}
+	return dag.NewTask(id, fn)
+}
+
 // phase2Applicable: the first Run returned nil, nothing was cancelled, and every task of the graph
 // ran successfully (so "its dependencies returned nil" has one meaning for old vertices).
 func (r *runState) phase2Applicable() bool {
@@ -879,14 +923,14 @@ func (r *runState) posthocGraph(g int, final bool) {
 				pos[id] = p
 			}
 			for _, i := range m.Order {
-				id := fmt.Sprintf("t%02d", i)
+				id := r.id(i)
 				p, ok := pos[id]
 				if !ok {
 					r.fail("C16", "O16d", 0, "DepthFirstSort misses %s: %v", id, r.dfs[g])
 					continue
 				}
 				for _, d := range m.Deps[i] {
-					if q, ok := pos[fmt.Sprintf("t%02d", d)]; ok && q > p {
+					if q, ok := pos[r.id(d)]; ok && q > p {
 						r.fail("C16", "O16d", 0, "DepthFirstSort puts %s before its dependency t%02d: %v", id, d, r.dfs[g])
 					}
 				}
